@@ -416,7 +416,15 @@ class DemoStorage(ConflictResolvingStorage):
         self._commit_lock.acquire()
 
         with self._lock:
-            self.changes.tpc_begin(transaction, *a, **k)
+            try:
+                self.changes.tpc_begin(transaction, *a, **k)
+            except:  # noqa: E722 do not use bare 'except'
+                # We never got to know this transaction, so our tpc_abort
+                # will ignore it: let go of it here (the changes storage
+                # may have begun it before it failed).
+                self.changes.tpc_abort(transaction)
+                self._commit_lock.release()
+                raise
             self._transaction = transaction
             self._stored_oids = set()
             del self._resolved[:]
